@@ -100,4 +100,31 @@ theorem requests_out_of_program_order_lose_the_timer (t : Spec.Table) (k v s : N
 
 example : Spec.hasKey (Spec.remove (Spec.set [⟨3, 1, 4⟩] 3 9 2) 3) 3 = false := by decide
 
+/-! ### end to end: every configuration, every history of client operations -/
+
+/-- [every entry expires, no timer without an entry — for EVERY limit (absent, ≤ 0, positive), every positive
+expire, every wheel interval and every sequence of SetWithExpire / Set / Del / Get / Take (every outcome of fetch) /
+tick, the expiry callbacks (Del from inside the execute callback) included]  the keys in `data` are exactly the keys
+with a pending timer, and the wheel is never stopped.  (An expiry ≤ 0 is rejected by SetTimer and the error is
+dropped: that entry never expires — modelled as the code behaves and excluded here by `hpos` / `hexp`.) -/
+theorem cache_entry_iff_pending_timer (limit expire : Int) (interval : Nat) (hexp : 0 < expire) (ops : List COp)
+    (hpos : ∀ k v e, COp.set k v e ∈ ops → 0 < e) :
+    (ops.foldl cacheStep (Spec.Api.init interval, CacheL.init limit expire)).1.stopped = false
+    ∧ ∀ j, j ∈ (ops.foldl cacheStep (Spec.Api.init interval, CacheL.init limit expire)).2.data.map (·.1)
+        ↔ Spec.hasKey (ops.foldl cacheStep (Spec.Api.init interval, CacheL.init limit expire)).1.inner j = true := by
+  have h0 : CInv expire (Spec.Api.init interval, CacheL.init limit expire) := by
+    refine ⟨rfl, rfl, ?_⟩
+    intro j; simp [keysOf, CacheL.init, Spec.hasKey, Spec.Api.init]
+  obtain ⟨h1, _, h3⟩ := cacheRun_inv expire hexp ops _ hpos h0
+  exact ⟨h1, h3⟩
+
+/-- limit 1: the second Set evicts key 0 (its timer goes with it), the tick after two seconds expires key 1. -/
+example : ((([.put 0 5, .put 1 6, .get 0, .tick] : List COp).foldl cacheStep
+      (Spec.Api.init 1000000000, CacheL.init 1 2000000000)).2.data,
+    (([.put 0 5, .put 1 6, .get 0, .tick] : List COp).foldl cacheStep
+      (Spec.Api.init 1000000000, CacheL.init 1 2000000000)).1.inner,
+    (([.put 0 5, .put 1 6, .tick, .tick] : List COp).foldl cacheStep
+      (Spec.Api.init 1000000000, CacheL.init 1 2000000000)).2.data)
+    = ([(1, 6)], [⟨1, 6, 1⟩], []) := by decide
+
 end GoZero.C12
